@@ -163,6 +163,13 @@ def main(tier):
                 dupdocs.append(dumps(mutate(r, well_typed(r, 3)), r, dup_ok=True))
             except (ValueError, TypeError):
                 pass
+        # a repeated member: the decoder of the standard library hands each occurrence to the same receiver in turn (the last one counts;
+        # the receiver has been written to by the earlier one)
+        dupdocs += ['{"t":7,"v":{"dict":{"hp":{"t":0,"v":10}},"dict":{"mp":{"t":0,"v":3}}}}',
+                    '{"t":7,"v":{"dict":{"hp":{"t":0,"v":10}}},"v":{"dict":{"mp":{"t":0,"v":3}}}}',
+                    '{"t":7,"v":{"dict":{"a":{"t":0,"v":1},"b":{"t":0,"v":2}},"dict":{},"dict":{"c":{"t":0,"v":3}}}}',
+                    '{"t":5,"v":{"expr":"1","attrs":{"a":{"t":0,"v":1}},"attrs":{"b":{"t":0,"v":2}}}}',
+                    '{"t":6,"v":{"list":[{"t":7,"v":{"dict":{"x":{"t":0,"v":1}},"dict":{"y":{"t":0,"v":2}}}}]}}']
         docs += ["null", "5", "\"x\"", "[]", "{}", "", "{", "{\"t\":0,\"v\":03}", "{\"t\":0,\"v\":1}x", "{\"t\":0,\"v\":1e2}",
                  "{\"t\":9,\"v\":{\"name\":\"nosuch\"}}", "{\"t\":10,\"v\":{\"name\":\"x\"}}", "{\"t\":6,\"v\":{\"list\":[null]}}",
                  "{\"t\":7,\"v\":{\"dict\":{\"a\":null}}}"]
